@@ -524,7 +524,10 @@ class HelicityAmplitudeBuilder:
         if prefactor is not None:
             expression *= prefactor
         subscript = self.naming.generate_amplitude_name(transition)
-        self.__ingredients.components[f"A_{{{subscript}}}"] = expression
+        component_name = f"A_{{{subscript}}}"
+        # chains that are identical-particle permutations of each other have the same name
+        components = self.__ingredients.components
+        components[component_name] = components.get(component_name, 0) + expression
         return expression
 
     def _formulate_partial_decay(
